@@ -257,6 +257,8 @@ def execute_run_isolated(scn, config, tape_values=None, run_seed=None, keep_even
         try:
             os.close(r)
             try:
+                if hasattr(scn, "child_init"):
+                    scn.child_init(config)
                 res = ("ok", execute_run(scn, config, tape_values=tape_values, run_seed=run_seed, keep_events=keep_events))
             except HarnessError as e:
                 res = ("harness", str(e))
